@@ -1,4 +1,4 @@
-import TinodeVerif.Gen.TxSkel
+import TinodeVerif.Model.TxSkel
 /-!
 # C18 — multi-row store updates are all-or-nothing
 `Gen/TxSkel.lean` is REGENERATED on every run from server/db/{mysql,postgres}/adapter.go: for every function that
@@ -11,24 +11,6 @@ A return site therefore *closes the bracket* iff it returns the commit result, o
 *reports the failure* iff what it returns in the error position is non-nil on that path. A statement on the
 transaction is *covered* iff its error is stored in E (or returned directly), so that the next test of E sees it.
 -/
-namespace Tinode.Gen.TxSkel
-
-/-- schema creation/upgrade tools: not store operations of the running server (and DDL auto-commits) -/
-def exempt : List String := ["CreateDb", "UpgradeDb"]
-
-def Ret.closes (r : Ret) : Bool := r.kind == "commit" || r.kind == "beginfail" || r.guardedE
-
-def Ret.reports (r : Ret) : Bool :=
-  r.kind == "commit" || r.kind == "beginfail" || (r.guardedE && (r.kind == "errE" || r.kind == "other"))
-
-def Call.covered (c : Call) : Bool := c.dest == "E" || c.dest == "returned"
-
-/-- well-formed transactional function -/
-def TxFn.wf (f : TxFn) : Bool :=
-  f.deferOk && f.rets.all (fun r => r.closes && r.reports) && f.calls.all Call.covered
-
-end Tinode.Gen.TxSkel
-
 namespace Tinode.Props.C18
 open Tinode.Gen.TxSkel
 
@@ -65,5 +47,7 @@ theorem operations_present :
       "FileLinkAttachments", "FileDeleteUnused", "TopicCreate", "TopicUpdate", "UserUpdate", "SubsUpdate", "CredDel",
       "DeviceUpsert", "DeviceDelete"],
       fns.any (fun f => f.adapter == ad && f.name == n) = true := by decide
+
+theorem tolerated_ok : tolerated = expectedTolerated := by rfl
 
 end Tinode.Props.C18
